@@ -13,15 +13,17 @@ SEQ = ("TLC generates histories as behaviours of MintGen.tla (simulation, seeded
        "recorded step (request facts, actual reply, raw-store projection) is validated by TLC against MintAPI (MintTrace.tla): "
        "verdict vs Causes, allowed post-states, and every state invariant in every state. ")
 
+L2 = (" Layer 2 (MintSteps.tla: one action per storage / Lightning call, the two mutexes, the in-progress guard) is model-checked exhaustively by TLC over all interleavings of 2-4 requests with every Lightning outcome (16 scenarios that must hold, 4 defective variants - earlier states of the repository - that must be rejected), and every call sequence the explorer records on the real mint is validated against it by TLC (MintStepsTrace.tla; a corrupted sequence must be rejected in the same run); a MintSteps counterexample is replayed on the real mint as a fixed schedule (late Lightning answers are a scheduling point) before anything is reported.")
+
 CHECKS = {
     "C01": dict(
         category="model_checking", design_ref="§5 C01",
-        technique="TLA+ MintAPI + TLC: generated histories replayed, traces validated; all interleavings of concurrent requests validated by a TLC linearizability search",
+        technique="TLA+ MintAPI + TLC: generated histories replayed, traces validated; all interleavings of concurrent requests on the real mint validated by a TLC linearizability search; TLA+ MintSteps (call-level model) checked exhaustively by TLC and bound by call-sequence trace validation",
         text=SEQ + "Concurrency: for 13 (thorough 16) scenarios of 2-3 requests on one secret the harness enumerates every "
              "Mazurkiewicz-inequivalent interleaving at storage/LN-call granularity on the real mint (sleep sets, complete), and TLC "
              "(MintAccept.tla) searches a linearization of each execution; none found = double spend. A directed matrix re-presents the "
              "consumed secrets after every way a melt ends PAID and after a swap (state check, swap, other melt quote, changed "
-             "witness / DLEQ / amount), before and after a restart.",
+             "witness / DLEQ / amount), before and after a restart." + L2,
         note=TRUST),
     "C02": dict(
         category="model_checking", design_ref="§5 C02",
@@ -34,10 +36,10 @@ CHECKS = {
         note=TRUST),
     "C03": dict(
         category="model_checking", design_ref="§5 C03",
-        technique="TLA+ MintAPI mint-quote machine + TLC: generated histories, and all interleavings of mint/poll/notification validated by linearizability search",
+        technique="TLA+ MintAPI mint-quote machine + TLC: generated histories, and all interleavings of mint/poll/notification on the real mint validated by linearizability search; TLA+ MintSteps (call-level model) checked exhaustively by TLC and bound by call-sequence trace validation",
         text=SEQ + "Concurrency: every interleaving of up to three mint requests with different outputs, a quote poll and the "
              "(gated) invoice notification goroutine is executed on the real mint and validated by TLC (MintAccept.tla); "
-             "IssueOncePerPayment in every state; NUT-20 signature classes from the generator.",
+             "IssueOncePerPayment in every state; NUT-20 signature classes from the generator." + L2,
         note=TRUST),
     "C05": dict(
         category="fault_enumeration", design_ref="§5 C05",
@@ -54,12 +56,14 @@ CHECKS = {
         note=TRUST),
     "C07": dict(
         category="fault_enumeration", design_ref="§5 C07",
-        technique="crash/error enumeration at every storage/LN call on the real mint, post-crash traces validated by TLC against MintAPI + CrashOutcomes",
+        technique="crash/error enumeration at every storage/LN call on the real mint, post-crash traces validated by TLC against MintAPI + CrashOutcomes; crash windows of TLA+ MintSteps (exhaustive TLC run) compared with the observed ones",
         text="For 16 victim operations (swap, mint, melt with each Lightning outcome incl. internal settlement, pending-melt "
              "resolution by poll and state check, rotation at run time and at start-up) the call sequence is measured and, for every "
              "k, the process is killed before call k (goroutine frozen, store closed, mint reloaded from the same directory) and, "
              "separately, call k fails; an adversarial follow-up runs on the restarted mint. TLC validates: post-crash state is "
-             "all-or-nothing per phase, every follow-up step conforms to MintAPI, no inflation. The space is enumerated completely.",
+             "all-or-nothing per phase, every follow-up step conforms to MintAPI, no inflation. The space is enumerated completely. "
+             "MintSteps.tla with a crash between any two calls is model-checked exhaustively; the windows it reports as damaging are compared, per "
+             "kind of request and call, with those observed on the real mint, and the victims' call sequences are validated against it.",
         note="A crash is modelled between calls, not inside one (SQLite atomicity/durability trusted); the Lightning backend survives."),
     "C09": dict(
         category="model_checking", design_ref="§5 C09",
